@@ -266,3 +266,66 @@ pub fn new_cid_collision_native(_x: u8) -> u32 {
     assert!(ep.index.connection_ids.get(&b) == Some(&ch2));
     1
 }
+
+/// Native replay body for the E2 query `e2_endpoint_retire_and_drained_events` (C09 / C08), on a real
+/// `Endpoint` holding two connections: identifiers are issued to connection A (`NeedIdentifiers`), the
+/// peer retires one (`RetireConnectionId`, with or without permission to replace it), and A drains.
+/// Exactly the retired CID of exactly A stops routing, exactly one replacement is issued when allowed,
+/// B is never disturbed, and after `Drained` none of A's CIDs route anywhere while B's still do.
+pub fn retire_and_drained_native(allow_more: bool) -> u32 {
+    let mut cfg = EndpointConfig::new(Arc::new(NullHmac));
+    cfg.rng_seed(Some([7; 32]));
+    let mut ep = Endpoint::new(Arc::new(cfg), None, true);
+    let now = crate::verif::mk_instant(50, 0).unwrap();
+    let mut mk = |ep: &mut Endpoint, last: u8| {
+        let remote: SocketAddr = SocketAddr::new(std::net::IpAddr::V4(std::net::Ipv4Addr::new(10, 0, 0, last)), 4433);
+        ConnectionHandle(ep.connections.insert(ConnectionMeta {
+            init_cid: ConnectionId::new(&[last; 8]),
+            cids_issued: 0,
+            loc_cids: Default::default(),
+            addresses: FourTuple { remote, local_ip: None },
+            side: Side::Server,
+            reset_token: None,
+        }))
+    };
+    let (a, b) = (mk(&mut ep, 1), mk(&mut ep, 2));
+    ep.index.connection_ids_initial.insert(ConnectionId::new(&[1; 8]), RouteDatagramTo::Connection(a));
+    ep.index.connection_ids_initial.insert(ConnectionId::new(&[2; 8]), RouteDatagramTo::Connection(b));
+    let issued = |ev: Option<ConnectionEvent>| match ev {
+        Some(ConnectionEvent(ConnectionEventInner::NewIdentifiers(ids, _))) => ids,
+        _ => panic!("identifiers were requested but none were issued"),
+    };
+    let ids_a = issued(ep.handle_event(a, EndpointEvent(EndpointEventInner::NeedIdentifiers(now, 3))));
+    let ids_b = issued(ep.handle_event(b, EndpointEvent(EndpointEventInner::NeedIdentifiers(now, 2))));
+    assert!(ids_a.len() == 3 && ids_b.len() == 2, "the number of identifiers issued differs from the number requested");
+    for i in &ids_a {
+        assert!(ep.index.connection_ids.get(&i.id) == Some(&a));
+    }
+    // the peer retires A's sequence number 1
+    let r = ep.handle_event(a, EndpointEvent(EndpointEventInner::RetireConnectionId(now, 1, allow_more)));
+    assert!(ep.index.connection_ids.get(&ids_a[1].id).is_none(), "a retired CID still routes to the connection");
+    assert!(ep.index.connection_ids.get(&ids_a[0].id) == Some(&a) && ep.index.connection_ids.get(&ids_a[2].id) == Some(&a), "retiring one CID un-routed another");
+    for i in &ids_b {
+        assert!(ep.index.connection_ids.get(&i.id) == Some(&b), "retiring a CID of one connection disturbed another connection");
+    }
+    let mut all_a: Vec<ConnectionId> = ids_a.iter().map(|i| i.id).collect();
+    if allow_more {
+        let more = issued(r);
+        assert!(more.len() == 1 && more[0].sequence == 3, "exactly one replacement CID is issued for a retired one");
+        all_a.push(more[0].id);
+    } else {
+        assert!(r.is_none(), "a replacement CID was issued although the connection did not allow it");
+    }
+    // retiring a sequence number that is not active changes nothing
+    assert!(ep.handle_event(a, EndpointEvent(EndpointEventInner::RetireConnectionId(now, 77, true))).is_none());
+    // A drains
+    assert!(ep.handle_event(a, EndpointEvent(EndpointEventInner::Drained)).is_none());
+    for cid in &all_a {
+        assert!(ep.index.connection_ids.get(cid).is_none(), "a CID of a drained connection still routes");
+    }
+    for i in &ids_b {
+        assert!(ep.index.connection_ids.get(&i.id) == Some(&b), "draining one connection un-routed another");
+    }
+    assert!(ep.open_connections() == 1);
+    1 + allow_more as u32
+}
